@@ -171,6 +171,8 @@ class Ref:
         k = 0
         while r[0] == 'ok' and is_rec(r[1]):
             self.tags.add('rec.iterated')
+            if region - {m}:
+                self.tags.add('rec.reexecutes-other-nodes')
             if k == mx:
                 nd = self.nodes[m]
                 self.tags.add('rec.exhausted')
